@@ -222,24 +222,26 @@ func (p c16) whenStacked(c *core.Ctx) {
 // whenSharedGrouping: one grouping, whose leaf has a condition of its own, used at two (three) places under different conditions: every
 // copy is under its own pair of conditions and under nothing of the other use.
 func (p c16) whenSharedGrouping(c *core.Ctx) {
-	body := "grouping inner { leaf h { type string; } } grouping gg { leaf p { type int32; } leaf g { when \"p>5\"; type string; } uses inner { when \"p>5\"; } } " +
-		"container a { leaf o { type int32; } uses gg { when \"o>5\"; } } container b { leaf r { type int32; } uses gg { when \"r>5\"; } } container n { uses gg; } leaf q { type string; }"
+	body := "grouping inner { leaf h { type string; } } grouping gg { leaf p { type int32; } leaf g { when \"p>5\"; type string; } leaf g2 { when \"../q='keep'\"; type string; } uses inner { when \"p>5\"; } } " +
+		"container a { leaf o { type int32; } uses gg { when \"o>5\"; } } container b { leaf r { type int32; } uses gg { when \"r>5\"; } } container n { uses gg; } leaf q { type string; } " +
+		// three conditions on one node: its own, the one of the uses, and the one of the augment the uses is written in
+		"container d { leaf s { type int32; } leaf t { type int32; } } augment \"/d\" { when \"s>5\"; uses gg { when \"t>5\"; } }"
 	m, err := parser.LoadModuleFromString(nil, "module m { namespace \"urn:m\"; prefix m; revision 2020-01-01; "+body+" }")
 	if err != nil {
 		c.Violate("when/load-error/shared-grouping", "load: %v\n%s", err, body)
 		return
 	}
-	for mask := 0; mask < 32; mask++ {
+	for mask := 0; mask < 256; mask++ {
 		v := func(bit int) int {
 			if mask&(1<<bit) != 0 {
 				return 9
 			}
 			return 1
 		}
-		o, pa, r, pb, pn := v(0), v(1), v(2), v(3), v(4)
+		o, pa, r, pb, pn, ds, dt, pd := v(0), v(1), v(2), v(3), v(4), v(5), v(6), v(7)
 		c.Eval()
-		c.Shape("when-shared-grouping/%05b", mask)
-		doc := fmt.Sprintf("{\"a\":{\"o\":%d,\"p\":%d,\"g\":\"x\",\"h\":\"y\"},\"b\":{\"r\":%d,\"p\":%d,\"g\":\"x\",\"h\":\"y\"},\"n\":{\"p\":%d,\"g\":\"x\",\"h\":\"y\"},\"q\":\"keep\"}", o, pa, r, pb, pn)
+		c.Shape("when-shared-grouping/%08b", mask)
+		doc := fmt.Sprintf("{\"a\":{\"o\":%d,\"p\":%d,\"g\":\"x\",\"h\":\"y\"},\"b\":{\"r\":%d,\"p\":%d,\"g\":\"x\",\"h\":\"y\"},\"n\":{\"p\":%d,\"g\":\"x\",\"h\":\"y\"},\"d\":{\"s\":%d,\"t\":%d,\"p\":%d,\"g\":\"x\",\"g2\":\"z\",\"h\":\"y\"},\"q\":\"keep\"}", o, pa, r, pb, pn, ds, dt, pd)
 		n, _ := nodeutil.ReadJSON(doc)
 		var got string
 		var rerr error
@@ -262,13 +264,17 @@ func (p c16) whenSharedGrouping(c *core.Ctx) {
 		for _, site := range []struct {
 			name       string
 			outer, own bool
-		}{{"a", o > 5, pa > 5}, {"b", r > 5, pb > 5}, {"n", true, pn > 5}} {
+		}{{"a", o > 5, pa > 5}, {"b", r > 5, pb > 5}, {"n", true, pn > 5}, {"d", ds > 5 && dt > 5, pd > 5}} {
 			_, hasP := top[site.name]["p"]
 			_, hasG := top[site.name]["g"]
 			_, hasH := top[site.name]["h"]
 			if hasP != site.outer || hasG != (site.outer && site.own) || hasH != (site.outer && site.own) {
 				c.Violate("when/shared-grouping/"+site.name, "container %s: p visible=%v (want %v), g visible=%v and h visible=%v (want %v: the condition of this use and the leaf's own)\n%s", site.name, hasP, site.outer, hasG, hasH, site.outer && site.own, wit)
 			}
+		}
+		// a leaf whose own condition holds and does not depend on anything the uses brings: only the uses' and the augment's decide
+		if _, hasG2 := top["d"]["g2"]; hasG2 != (ds > 5 && dt > 5) {
+			c.Violate("when/shared-grouping/three-conditions", "container d: g2 visible=%v, want %v (its own condition holds; the uses wants t>5, the augment s>5)\n%s", hasG2, ds > 5 && dt > 5, wit)
 		}
 		if raw["q"] != "keep" {
 			c.Violate("when/hides-too-much/shared-grouping", "the sibling leaf disappeared\n%s", wit)
